@@ -41,22 +41,31 @@ def _targets(name):
 
 def install(name, make_wrapper):
     """Permanently wrap `name` at all its call-time names.
-    make_wrapper(real) -> wrapper."""
-    real = original(name)
-    w = make_wrapper(real)
-    try:
-        w.__gmv_original__ = real
-    except AttributeError:
-        pass
+    make_wrapper(real) -> wrapper.  Each name keeps the object IT is bound to: when a package re-exports another
+    implementation under the same name (a "lean" variant for one caller, say), that implementation is the one that
+    gets wrapped and judged there, not the one of the first module."""
+    made = {}
+    first = None
     for mod in _targets(name):
-        setattr(mod, name, w)
-    return w
+        here = getattr(mod, name)
+        real = getattr(here, '__gmv_original__', here)
+        if id(real) not in made:
+            w = make_wrapper(real)
+            try:
+                w.__gmv_original__ = real
+            except AttributeError:
+                pass
+            made[id(real)] = w
+        setattr(mod, name, made[id(real)])
+        if first is None:
+            first = made[id(real)]
+    return first
 
 
 def uninstall(name):
-    real = original(name)
     for mod in _targets(name):
-        setattr(mod, name, real)
+        here = getattr(mod, name)
+        setattr(mod, name, getattr(here, '__gmv_original__', here))
 
 
 @contextlib.contextmanager
